@@ -84,6 +84,9 @@ func (x *Exec) call(fr *Frame, st *State, in ssa.Instruction, c *ssa.CallCommon,
 			}
 			return
 		}
+		if recv.K == VIface {
+			x.mustNot(fr, st, in, Eq(recv.Tag, Num(0)), "nil-interface-call")
+		}
 		x.note("unmodelled interface call " + name)
 		k(st, resultOf(x.freshResultsAssumed(st, sig)))
 		return
@@ -337,6 +340,23 @@ func (x *Exec) callContract(fr *Frame, st *State, in ssa.Instruction, fc *FuncCo
 	if fc.Panics != nil {
 		c := x.safeEvalBool(env, fc.Panics, fc.Key()+" panics_when")
 		x.mustNot(fr, st, in, c, "callee-panics")
+	}
+	if x.panicMode {
+		// panic-freedom is modular too: the callee must itself be checked (or be an assumed accessor), under its panic preconditions
+		checked := fc.Trusted || fc.NoPanic
+		for _, pp := range x.panicProps {
+			if hasProp(fc.Props, pp) {
+				checked = true
+			}
+		}
+		if !checked {
+			x.emit("no-panic", label+":callee-not-panic-checked", st, FalseT, "callee "+fc.Key()+" has a contract but is not under a no-panic check")
+		}
+		for i, r := range fc.PanicRequires {
+			g := x.safeEvalBool(env, r.E, fc.Key()+" panic_requires")
+			x.emit("pre", fmt.Sprintf("%s:panic_requires#%d", label, i+1), st, g, r.Text)
+			st.Assume(g)
+		}
 	}
 	// recursion: termination measure must decrease
 	if fn == x.top && fc.Decr != nil && x.topDecr0 != nil {
